@@ -102,7 +102,14 @@ def pre_assumptions(st, K):
     return inv_cas(st.present, st.cas, st.cas_id, K)
 
 
-def run_store_checks(ck, cmds, aspects, K=2, regions_fn=None, tier='quick'):
+def run_store_checks(ck, cmds, aspects, K=2, regions_fn=None, tier='quick', variants=('none', 'random')):
+    """both store variants the server can be started with: the plain MemoryStore and the same behind RandomPolicy with its
+    limit out of reach (the properties are stated for both)"""
+    for v in variants:
+        _run_store_checks(ck, cmds, aspects, K, regions_fn, tier, v)
+
+
+def _run_store_checks(ck, cmds, aspects, K, regions_fn, tier, variant):
     E = ck.E
     st = St(K)
     inp = In()
@@ -118,7 +125,16 @@ def run_store_checks(ck, cmds, aspects, K=2, regions_fn=None, tier='quick'):
     for cmd in cmds:
         for j in range(K if tier != 'quick' or cmd in ('flush',) else 1):
             extra = pre_assumptions(st, K) + handler_input_constraints(cmd, inp)
-            ss = summarize(E, cmd, j, K, st, inp, extra_assume=extra, ck=ck)
+            if variant == 'random':
+                from . import policy_checks as PC
+                L = PC.L
+                extra += [z3.ULT(L, 1 << 62), z3.ULE(st.usage, L), z3.UGE(L - st.usage, BV(1 << 33))]
+                ss = summarize(E, cmd, j, K, st, inp, 'random', L, extra_assume=extra, ck=ck)
+                tag = 'random-policy:'
+            else:
+                L = None
+                ss = summarize(E, cmd, j, K, st, inp, extra_assume=extra, ck=ck)
+                tag = ''
             for s in ss:
                 if s.status not in ('ok', 'panic'):
                     continue
@@ -127,21 +143,21 @@ def run_store_checks(ck, cmds, aspects, K=2, regions_fn=None, tier='quick'):
                 small = [z3.ULE(st.cas_id, 1000), z3.ULE(st.now, 100000)] + [z3.ULE(vlen(v), 16) for v in st.val + [inp.val]]
                 R = regions_fn(cmd, j, st, inp, s) if regions_fn else {}
 
-                def on_w(m, where, s=s, cmd=cmd, j=j):
-                    return replay_witness(ck, m, st, inp, cmd, j, s)
+                def on_w(m, where, s=s, cmd=cmd, j=j, L=L):
+                    return replay_witness(ck, m, st, inp, cmd, j, s, L)
                 for aspect, name, phi in obligations_for(cmd, j, st, inp, s, K):
                     if aspect not in aspects:
                         continue
                     if name.startswith('GAP:'):
-                        ck.inductive(f'{cmd}:{name[4:]}', s.pc, phi)
+                        ck.inductive(f'{tag}{cmd}:{name[4:]}', s.pc, phi)
                     else:
-                        ck.obligation(f'{cmd}:{name}', s.pc, phi, R, on_w, small)
+                        ck.obligation(f'{tag}{cmd}:{name}', s.pc, phi, R, on_w, small)
                 # translator validation of this path
                 if nrep < replay_budget:
                     m = ck.witness(s.pc, small)
                     if m is not None and m != 'unknown':
                         nrep += 1
-                        okp, desc, scen = replay_witness(ck, m, st, inp, cmd, j, s)
+                        okp, desc, scen = replay_witness(ck, m, st, inp, cmd, j, s, L)
                         if okp:
                             ck.replays_ok += 1
                         else:
@@ -150,10 +166,13 @@ def run_store_checks(ck, cmds, aspects, K=2, regions_fn=None, tier='quick'):
                             ck.inconclusive.append(f'translator validation: native run of a {cmd} path differs from the engine: {desc} ({p})')
 
 
-def replay_witness(ck, m, st, inp, cmd, j, s):
+def replay_witness(ck, m, st, inp, cmd, j, s, L=None):
     """-> (reproduced?, description, scenario): the native run must do exactly what the engine's path predicts"""
     try:
-        sc, nsetup, C = SR.scenario(m, st, inp, cmd, j)
+        if L is not None:
+            sc, nsetup, C = SR.scenario(m, st, inp, cmd, j, policy='random', memory_limit=mval(m, L))
+        else:
+            sc, nsetup, C = SR.scenario(m, st, inp, cmd, j)
         pred, pprobes = SR.predicted(m, st, s, C)
     except ValueError as ex:
         return None, f'cannot concretise witness: {ex}', None
@@ -166,7 +185,7 @@ def replay_witness(ck, m, st, inp, cmd, j, s):
             pre.append(f"key{i}: cas={mval(m, st.cas[i])} flags={mval(m, st.flags[i])} ttl={mval(m, st.ttl[i])} stored_at={mval(m, st.ts[i])}")
         else:
             pre.append(f'key{i}: absent')
-    desc = (f"{cmd} key{j} at t={mval(m, st.now)} (cas={mval(m, inp.cas)} flags={mval(m, inp.flags)} ttl={mval(m, inp.ttl)} "
+    desc = ('' if L is None else f'[--eviction-policy random, limit {mval(m, L)}] ') + (f"{cmd} key{j} at t={mval(m, st.now)} (cas={mval(m, inp.cas)} flags={mval(m, inp.flags)} ttl={mval(m, inp.ttl)} "
             f"delta={mval(m, inp.delta)} init={mval(m, inp.init)}; counter={mval(m, st.cas_id)}) on [{'; '.join(pre)}] -> "
             f"kind {obs['kind']} cas {obs.get('cas')} probes {[(p.get('vis'), p.get('cas'), p.get('flags'), p.get('value')) for p in oprobes]}")
     if not okp:
